@@ -261,15 +261,15 @@ Proof. exact xsi_target_named. Qed.
 Theorem C05_xsi_target_total : forall q, is_crash (xsi_target q) = false.
 Proof. exact xsi_target_total. Qed.
 
-(** enumerated types: both readers (dict documents / HttpRpc / XML attributes, and XML elements) accept
-    exactly the declared names, for either validator setting, and deliver the member of that name *)
-Theorem C05_enum_readers_are_spec : forall M (class_attr : text -> M) soft nillable values ov,
-  enum_from_bytes class_attr soft nillable values ov = enum_spec class_attr values ov
-  /\ enum_from_element class_attr soft nillable values ov = enum_spec class_attr values ov.
+(** enumerated types, validator='soft': both readers (dict documents / HttpRpc / XML attributes, and XML
+    elements) accept exactly the declared names and deliver the member of that name *)
+Theorem C05_enum_readers_are_spec : forall M (class_attr : text -> M) nillable values ov,
+  enum_from_bytes class_attr true nillable values ov = enum_spec class_attr values ov
+  /\ enum_from_element class_attr true nillable values ov = enum_spec class_attr values ov.
 Proof. exact enum_readers_are_spec. Qed.
-Theorem C05_enum_readers_agree : forall M (class_attr : text -> M) soft nillable values ov,
-  enum_from_bytes class_attr soft nillable values ov = enum_from_element class_attr soft nillable values ov
-  /\ (forall m, enum_from_bytes class_attr soft nillable values ov = Ok m ->
+Theorem C05_enum_readers_agree : forall M (class_attr : text -> M) nillable values ov,
+  enum_from_bytes class_attr true nillable values ov = enum_from_element class_attr true nillable values ov
+  /\ (forall m, enum_from_bytes class_attr true nillable values ov = Ok m ->
         exists v, ov = Some v /\ In v values /\ m = class_attr v).
 Proof. exact enum_readers_agree'. Qed.
 
